@@ -1,0 +1,41 @@
+// Verification hooks, compiled only with RUSTFLAGS="--cfg ruschm_verif".
+// A thread-local counter of the nesting depth of the evaluator's Rust calls.
+use std::cell::Cell;
+
+thread_local! {
+    static DEPTH: Cell<usize> = Cell::new(0);
+    static MAX_DEPTH: Cell<usize> = Cell::new(0);
+}
+
+pub struct DepthGuard;
+
+pub fn enter() -> DepthGuard {
+    DEPTH.with(|d| {
+        d.set(d.get() + 1);
+        MAX_DEPTH.with(|m| {
+            if d.get() > m.get() {
+                m.set(d.get())
+            }
+        });
+    });
+    DepthGuard
+}
+
+impl Drop for DepthGuard {
+    fn drop(&mut self) {
+        DEPTH.with(|d| d.set(d.get() - 1));
+    }
+}
+
+pub fn reset() {
+    DEPTH.with(|d| d.set(0));
+    MAX_DEPTH.with(|m| m.set(0));
+}
+
+pub fn depth() -> usize {
+    DEPTH.with(|d| d.get())
+}
+
+pub fn max_depth() -> usize {
+    MAX_DEPTH.with(|m| m.get())
+}
